@@ -180,6 +180,7 @@ def main():
     if a.replay:
         rp, o = native(json.load(open(a.replay))['case']); print(o); sys.exit(1 if rp else 0)
     rep = R.Report('C09', a.tier, seed); timeout = solve.TIMEOUT_MS[a.tier]
+    R.prefetch_native('props.c09_native', ['bounded', str(seed), a.tier])      # the stand-in runs while the obligations are discharged
     u = Under()
     for k in ('TTestContainer.__init__', 'TTestAnalysis.__init__', 'TTestAnalysis.run', 'TTestAnalysis._compute', 'TTestThreadAccumulator.__init__', 'TTestThreadAccumulator._initialize', 'TTestThreadAccumulator._update_core', 'TTestThreadAccumulator.update',
               'TTestThreadAccumulator.stop', 'TTestThreadAccumulator.run', 'TTestThreadAccumulator.start', 'TTestThreadAccumulator.join', 'TTestThreadAccumulator.compute'): rep.function(TT + '::' + k, u.ld.fn_hash.get(TT + '::' + k))
